@@ -35,6 +35,14 @@ func main() {
 		}
 		close(start)
 		wg.Wait()
+		// every lookup result the goroutines kept by reference is read again now that all writers
+		// have finished: it must still be what the lookup returned
+		scn.Recheck("after all goroutines finished")
+		if changed, _ := scn.KeptChanged(); len(changed) > 0 {
+			k := changed[0]
+			fmt.Fprintf(os.Stderr, "KEPT-RESULT-CHANGED kind=%s repetition %d: %s\n", k.Kind, r, k.String())
+			os.Exit(3)
+		}
 		_ = scn.Final()
 	}
 	fmt.Println("OK", s.Name)
